@@ -20,6 +20,8 @@ pub struct Env<'a> {
     /// (field, method) -> template with `{0}` `{1}` for the arguments
     pub atomics: HashMap<(String, String), String>,
     pub macros: &'a HashMap<String, String>,
+    /// `!x` is bitwise on integers (Z.lnot) rather than boolean negation
+    pub int_not: bool,
 }
 
 impl<'a> Env<'a> {
@@ -28,6 +30,7 @@ impl<'a> Env<'a> {
             rename: HashMap::new(),
             atomics: HashMap::new(),
             macros,
+            int_not: false,
         }
     }
 }
@@ -82,7 +85,13 @@ pub fn expr(e: &Expr, env: &Env<'_>) -> Result<String, String> {
         }
         Expr::Unary(u) => match u.op {
             UnOp::Neg(_) => format!("(- {})", expr(&u.expr, env)?),
-            UnOp::Not(_) => format!("(negb {})", expr(&u.expr, env)?),
+            UnOp::Not(_) => {
+                if env.int_not {
+                    format!("(Z.lnot {})", expr(&u.expr, env)?)
+                } else {
+                    format!("(negb {})", expr(&u.expr, env)?)
+                }
+            }
             _ => return Err(format!("unsupported unary {}", e.to_token_stream())),
         },
         Expr::Cast(c) => {
